@@ -61,10 +61,11 @@ func (w Resolver) Resolve(id did.DID, _ *resolver.ResolveMetadata) (*did.Documen
 	}
 	if len(baseURL.Path) == 0 {
 		// if the id doesn't contain a path we set '/.well-known/did.json' s path
-		baseURL.Path = "/.well-known"
+		baseURL = baseURL.JoinPath(".well-known")
 	}
-	baseURL.Path = baseURL.Path + "/did.json"
-	targetURL := baseURL.String()
+	// JoinPath keeps the escaped form of the path: an identifier with encoded octets (%2F) must be fetched from the
+	// path it encodes, not from the path its decoded form would denote
+	targetURL := baseURL.JoinPath("did.json").String()
 
 	// TODO: Support DNS over HTTPS (DOH), https://www.rfc-editor.org/rfc/rfc8484
 	request, err := http.NewRequest(http.MethodGet, targetURL, nil)
